@@ -196,7 +196,9 @@ func familyDiscovery(t *testing.T) {
 				probeHeal()
 				at := time.Now()
 				var giveUp interface{}
-				req := httptest.NewRequest("GET", "http://app.test/x", nil)
+				// a protected path, or one under an excluded prefix (New always excludes /favicon): the initialisation gate is in front of both
+				path := []string{"/x", "/x", "/favicon.ico"}[rng.Intn(3)]
+				req := httptest.NewRequest("GET", "http://app.test"+path, nil)
 				var cancel context.CancelFunc
 				if rng.Intn(3) == 0 {
 					g := time.Duration(1+rng.Intn(40))*time.Second + 333*time.Millisecond
@@ -226,10 +228,12 @@ func familyDiscovery(t *testing.T) {
 						obs["doc"] = rest[:i]
 					}
 					everOK = true
+				case path != "/x" && rec.Code == 200 && d.calls == before+1:
+					obs["r"] = "serve" // passed to the downstream handler: normal service of an excluded path
 				default:
 					obs["r"] = fmt.Sprintf("other:%d", rec.Code)
 				}
-				m := M{"op": "dreq", "at": at.UnixNano(), "giveUp": giveUp, "obs": obs}
+				m := M{"op": "dreq", "at": at.UnixNano(), "giveUp": giveUp, "path": path, "obs": obs}
 				hist = append(hist, m)
 				T.emit(m)
 				T.stat("discovery.request." + fmt.Sprint(obs["r"]))
